@@ -156,6 +156,7 @@ func (f *File) GetDirectoryHeader() ([]byte, error) {
 		ExtraLen:         uint16(len(f.Extra)),
 		CommentLen:       uint16(len(f.Comment)),
 	}
+	extraField := f.Extra
 	if f.CompressedSize >= uint32Max || f.UncompressedSize >= uint32Max || f.Offset >= uint32Max {
 		hdr.CompressedSize = uint32Max
 		hdr.UncompressedSize = uint32Max
@@ -170,14 +171,16 @@ func (f *File) GetDirectoryHeader() ([]byte, error) {
 		b := bytes.NewBuffer(make([]byte, 0, zip64ExtraLen+4+len(f.Extra)))
 		_ = binary.Write(b, binary.LittleEndian, extra)
 		b.Write(f.Extra)
-		f.Extra = b.Bytes()
+		// f.Extra itself stays as it is: this function may be called more
+		// than once for the same file
+		extraField = b.Bytes()
 		hdr.ExtraLen = uint16(b.Len())
 		hdr.ReaderVersion = zip45
 	}
-	b := bytes.NewBuffer(make([]byte, 0, directoryHeaderLen+len(f.Name)+len(f.Extra)+len(f.Comment)))
+	b := bytes.NewBuffer(make([]byte, 0, directoryHeaderLen+len(f.Name)+len(extraField)+len(f.Comment)))
 	_ = binary.Write(b, binary.LittleEndian, hdr)
 	b.WriteString(f.Name)
-	b.Write(f.Extra)
+	b.Write(extraField)
 	b.Write(f.Comment)
 	return b.Bytes(), nil
 }
